@@ -101,6 +101,7 @@ type c09Spec struct {
 	typ       int
 	endpoint  int
 	defect    int
+	cross     int // k > 0: the CA below the root is presented through its cross-certificate issued by root index k-1
 	arg1      int
 	arg2      int
 }
@@ -570,7 +571,12 @@ func (sc *c09Scenario) genSpec() (c09Spec, string) {
 		return sp, "free"
 	default:
 		sp := sc.history[rapid.IntRange(0, len(sc.history)-1).Draw(rt, "resubmitOf")]
-		switch rapid.IntRange(0, 3).Draw(rt, "tweak") {
+		switch rapid.IntRange(0, 5).Draw(rt, "tweak") {
+		case 4, 5:
+			// the same leaf through another valid chain: its issuing line cross-certified by another root
+			if sp.nInter >= 1 && sp.cross == 0 && sp.defect == c09DefNone && len(sc.roots) >= 2 {
+				sp.cross = 1 + (sp.rootIdx+1+rapid.IntRange(0, len(sc.roots)-2).Draw(rt, "crossRoot"))%len(sc.roots)
+			}
 		case 1:
 			sp.inclRoot = !sp.inclRoot
 		case 2:
@@ -620,6 +626,13 @@ func (sc *c09Scenario) build(sp c09Spec) *c09Sub {
 	}
 	for ca := issuing; ca != nil; ca = ca.parent {
 		path = append(path, ca)
+	}
+	if sp.cross > 0 && sp.nInter >= 1 && sp.defect == c09DefNone && sc.roots[sp.cross-1]%8 != rootID%8 {
+		// [.., CA below the root, root] becomes [.., cross-certificate of that CA under the other root, other root]
+		other := c09Root(sc.roots[sp.cross-1])
+		top := len(path) - 2
+		path = append(append([]*c09CA(nil), path[:top]...), c09Cross(path[top], other), other)
+		rootID = sc.roots[sp.cross-1]
 	}
 	s.path = path
 	na := c09NotAfter(sc.start, sc.limit, sp.pos)
@@ -798,6 +811,10 @@ func (sc *c09Scenario) build(sp c09Spec) *c09Sub {
 	s.desc = fmt.Sprintf("%s R%d(%s%s) I%d%s %s ser=%d na=%s eku=%s type=%s ep=%s defect=%s", sc.winDesc, rootID, acc,
 		map[bool]string{true: ",ctEKU", false: ""}[c09RootHasCTEKU(rootID)], sp.nInter, pre, rootIn, sp.serial,
 		c09PosNames[sp.pos], c09EKUNames[sp.eku], c09TypNames[sp.typ], c09Endpoints[sp.endpoint], defDesc)
+	if len(path) >= 2 && strings.Contains(path[len(path)-2].path, "~") {
+		s.desc += " via-cross-certificate(" + path[len(path)-2].path + ")"
+		sc.rec.Add("submissions-through-a-cross-certificate", 1)
+	}
 	return s
 }
 
